@@ -365,7 +365,39 @@ func c09Run(si int, stream []int, canon *mc.Canon) (key, msg string) {
 	var first []Key
 	bad := ""
 	perms := 0
-	mc.Permutations(n, func(perm []int) bool {
+	arrangements := func(fn func(perm []int) bool) {
+		if n <= 6 {
+			mc.Permutations(n, fn)
+			return
+		}
+		// More than 6 keys: the stated finite family of all rotations,
+		// forwards and reversed, and all adjacent transpositions.
+		perm := make([]int, n)
+		for rot := 0; rot < n; rot++ {
+			for i := range perm {
+				perm[i] = (i + rot) % n
+			}
+			if !fn(perm) {
+				return
+			}
+			for i := range perm {
+				perm[i] = (n - 1 - i + rot) % n
+			}
+			if !fn(perm) {
+				return
+			}
+		}
+		for t := 0; t+1 < n; t++ {
+			for i := range perm {
+				perm[i] = i
+			}
+			perm[t], perm[t+1] = perm[t+1], perm[t]
+			if !fn(perm) {
+				return
+			}
+		}
+	}
+	arrangements(func(perm []int) bool {
 		perms++
 		s := make([]Key, n)
 		for i, pi := range perm {
@@ -460,7 +492,7 @@ func TestVerifC09(t *testing.T) {
 	c := mc.NewCheck("C09")
 	c.Assume("reference comparators written from the documentation; pairs the documented field order does not separate (1k vs 1000, two non-numbers under num) are only required to satisfy the order axioms")
 	c.Assume("a missing value counts as the empty value, observed when the result lacking it is projected")
-	c09Space(c, mc.Pick(c, 4, 5))
+	c09Space(c, mc.Pick(c, 6, 7))
 	if code := c.Finish(); code != 0 {
 		os.Exit(code)
 	}
